@@ -146,9 +146,7 @@ def handle_trace_string_global(parser, events):
     debugid = 0
     str_id = 0
     vstr = b''
-    lookup_events = []
     for event in events:
-        lookup_events.append(event)
         if event.eventid != events[0].eventid:
             # Unrelated record logged between the chunks.
             continue
@@ -161,7 +159,7 @@ def handle_trace_string_global(parser, events):
 
         if event.func_qualifier & DgbFuncQual.DBG_FUNC_END.value:
             break
-    event = TraceStringGlobal(lookup_events, debugid, str_id,
+    event = TraceStringGlobal(events, debugid, str_id,
                               vstr.replace(b'\x00', b'').decode(errors='backslashreplace'))
     if event.vstr:
         parser.global_strings[event.str_id] = event.vstr
